@@ -323,7 +323,7 @@ func c12Random(c *Ctx) {
 			if r.IntN(3) == 0 {
 				alpha = "ACGT"
 			}
-			s := randSeq(r, []byte(alpha), l)
+			s := seqOrRuns(r, []byte(alpha), l)
 			if r.IntN(4) == 0 && l > 4 {
 				// palindromic region: canonical ties
 				h := s[:l/2]
